@@ -510,9 +510,9 @@ class MinFlowDecomp(pathmodel.AbstractPathModelDAG): # Note that we inherit from
 
             right_node_index = min(right_node_index + MinFlowDecomp.subgraph_lowerbound_shift, self.G.number_of_nodes() - 1)
 
-        # Removing zero weight
-        if 0 in all_subgraph_weights:
-            all_subgraph_weights.remove(0)
+        # Removing zero weights, including those that are zero only up to the solver tolerance (for float weights,
+        # a path of the decomposition of a window can get weight e.g. 1.8e-15, which the solver rejects as a coefficient)
+        all_subgraph_weights = {weight for weight in all_subgraph_weights if weight > sw.SolverWrapper.tolerance}
 
         self._all_subgraph_weights = all_subgraph_weights
 
